@@ -40,3 +40,12 @@ package kvs
 //@   ensures [G1-copy] fresh(result0.Val) @C18
 //@   ensures [G2-readonly] jblk == old(jblk) @C18
 //@   ensures [M2-durable] jcommits == old(jcommits) + 1 && (result1 <==> lastst == 1) @C18
+
+// start-up: recovery (obj.MkLog) runs before the store is handed out; nothing is written
+//@ spec MkKVS(d, sz)
+//@   props C18 C11
+//@   requires d.tag != 0
+//@   allocates obj.Log, kvs.KVS
+//@   modifies dsk, recovered, dpending
+//@   ensures [K2-recovered-first] result != nil && result.log != nil && result.sz == sz && recovered @C18
+//@   ensures [K2-readonly] jblk == old(jblk) && jcommits == old(jcommits) @C18
